@@ -58,6 +58,283 @@ Definition dNop : dec nop := fun l =>
 Definition apply_nop (st : list Z * numbering) (o : nop) : list Z * numbering :=
   match o with NAdd i x => add_at (Z.to_nat i) x st | NClear => clear st end.
 
+
+(* ====================================================================================
+   Circular records (function ids 3..): areas carry Common/Loc.v locations - one part, or the two
+   parts [s,N) ++ [0,e) of an origin-spanning area.  Record.add_candidate_cluster / add_subregion
+   (bisect_left over CDSCollection.__lt__), Record.create_regions (areas.sort(), the sweep with
+   overlaps_with + connect_locations(wrap_point), the first/last merge), Region.__init__ (location of
+   the children, wrap point inferred, the constructor checks of CDSCollection / Feature, child.parent
+   = self asserting containment), Record.add_region (linear scan: overlap rejection, `region <
+   existing` stops the scan, ordered insertion).
+   ==================================================================================== *)
+Record carea := mkCA { cid : Z; ckind : Z; cloc : loc }.     (* kind 0 = SubRegion, 1 = CandidateCluster *)
+
+(* get_comparator of CDSCollection.__lt__: (start, -len); the start of an origin-bridging location is
+   min(head starts) - max(head ends) of the part before the origin: a negative number *)
+Definition kstart (l : loc) : Z :=
+  if bridges l then
+    match split_bridging l with
+    | Ok (_, head) => lmin (map ps head) - lmax (map pe head)
+    | Err _ => lstart l          (* the split raises ValueError; outside the generated domain *)
+    end
+  else lstart l.
+(* CDSCollection.__lt__(self, other) between areas / between regions: `other in self` is False (the
+   other one is never a child), then the containment shortcut, then the comparator *)
+Definition coll_lt (a b : loc) : bool :=
+  if contains a b && negb (contains b a) then true
+  else (kstart a <? kstart b) || ((kstart a =? kstart b) && (- llen a <? - llen b)).
+
+(* bisect.bisect_left(a, x): the binary search itself, `p e` standing for a[mid] < x *)
+Fixpoint bisect_go {A} (p : A -> bool) (l : list A) (fuel : nat) (lo hi : nat) : nat :=
+  match fuel with
+  | O => lo
+  | S f =>
+    if Nat.ltb lo hi then
+      let mid := Nat.div2 (lo + hi) in
+      match nth_error l mid with
+      | Some e => if p e then bisect_go p l f (S mid) hi else bisect_go p l f lo mid
+      | None => lo
+      end
+    else lo
+  end.
+Definition bisect_left {A} (p : A -> bool) (l : list A) : nat := bisect_go p l (S (length l)) 0 (length l).
+Definition insert_at {A} (i : nat) (x : A) (l : list A) : list A := firstn i l ++ x :: skipn i l.
+
+(* add_candidate_cluster / add_subregion: the two assertions, bisect_left, insert *)
+Definition add_area (N : Z) (l : list carea) (x : carea) : res (list carea) :=
+  if (lstart (cloc x) <? 0) || (N <? lend (cloc x)) then Err E_Assert
+  else Ok (insert_at (bisect_left (fun y => coll_lt (cloc y) (cloc x)) l) x l).
+
+(* the sweep of create_regions over the sorted areas; sections oldest first *)
+Fixpoint csweep (w : option Z) (location : loc) (incl_rev : list carea) (secs_rev : list (loc * list carea))
+                (areas : list carea) : res (list (loc * list carea)) :=
+  match areas with
+  | [] => Ok (rev ((location, rev incl_rev) :: secs_rev))
+  | a :: r =>
+    if negb (overlap (cloc a) location)
+    then csweep w (cloc a) [a] ((location, rev incl_rev) :: secs_rev) r
+    else do l <- connect_locations [cloc a; location] w; csweep w l (a :: incl_rev) secs_rev r
+  end.
+
+Definition in_areas (a : carea) (l : list carea) : bool := existsb (fun b => cid a =? cid b) l.
+
+(* merge of the first and the last section when their locations overlap *)
+Definition cfixup (w : option Z) (secs : list (loc * list carea)) : res (list (loc * list carea)) :=
+  match secs with
+  | (floc, fareas) :: (_ :: _) as rest =>
+    match last_opt rest with
+    | Some (lloc, lareas) =>
+      if overlap floc lloc then
+        do l <- connect_locations [floc; lloc] w;
+        Ok ((l, fareas ++ filter (fun a => negb (in_areas a fareas)) lareas) :: removelast rest)
+      else Ok secs
+    | None => Ok secs
+    end
+  | _ => Ok secs
+  end.
+
+Definition csections (w : option Z) (cands subs : list carea) : res (list (loc * list carea)) :=
+  match sort_by (fun a b => coll_lt (cloc a) (cloc b)) (cands ++ subs) with
+  | [] => Ok []
+  | a :: r => do secs <- csweep w (cloc a) [a] [] r; cfixup w secs
+  end.
+
+Record cregion := mkCR { rloc : loc; rcands : list carea; rsubs : list carea }.
+
+(* Region.__init__ + CDSCollection.__init__ + Feature.__init__ *)
+Definition first_end (l : loc) : Z := match l with p :: _ => pe p | [] => 0 end.
+Definition region_init (cands subs : list carea) : res cregion :=
+  let children := subs ++ cands in
+  match children with
+  | [] => Err E_Value
+  | _ =>
+    let locs := map cloc children in
+    let wrap := if existsb bridges locs then Some (lmax (map first_end locs)) else None in
+    do l <- connect_locations locs wrap;
+    do _ <- (if is_compound l
+             then match l with [_; q] => if ps q =? 0 then Ok 0 else Err E_Value | _ => Err E_Assert end
+             else Ok 0);
+    if negb (all_same_strand l) then Err E_Assert else
+    if lend l <? lstart l then Err E_Assert else
+    if lstart l <? 0 then Err E_Value else
+    if is_compound l && negb (lstrand l =? 1) then Err E_Value else
+    if negb (forallb (fun c => contains l (cloc c)) children) then Err E_Assert else
+    Ok (mkCR l cands subs)
+  end.
+
+(* add_region: the linear scan *)
+Fixpoint add_scan (new : loc) (existing : list cregion) (i : nat) : res nat :=
+  match existing with
+  | [] => Ok i
+  | ex :: r =>
+    if overlap new (rloc ex) then Err E_Value
+    else if coll_lt new (rloc ex) then Ok i
+    else add_scan new r (S i)
+  end.
+Definition add_region (N : Z) (regs : list cregion) (r : cregion) : res (list cregion) :=
+  if (lstart (rloc r) <? 0) || (N <? lend (rloc r)) then Err E_Assert else
+  do index <- add_scan (rloc r) regs 0;
+  Ok (insert_at index r regs).
+
+Definition split_kinds (areas : list carea) : list carea * list carea :=
+  (filter (fun a => ckind a =? 1) areas, filter (fun a => negb (ckind a =? 1)) areas).
+
+Fixpoint add_sections (N : Z) (regs : list cregion) (secs : list (loc * list carea)) : res (list cregion) :=
+  match secs with
+  | [] => Ok regs
+  | (_, areas) :: r =>
+    let '(cs, ss) := split_kinds areas in
+    do reg <- region_init cs ss;
+    do regs' <- add_region N regs reg;
+    add_sections N regs' r
+  end.
+
+
+(* wrap_of N circular (C03/Model.v): len(record) if the record is circular, else None *)
+
+(* create_regions on a record holding `regs`, `cands`, `subs` *)
+Definition create_regions (N : Z) (circular : bool) (regs : list cregion) (cands subs : list carea)
+  : res (list cregion) :=
+  do secs <- csections (wrap_of N circular) cands subs;
+  add_sections N regs secs.
+
+(* the areas of a record in supply order -> (_candidate_clusters, _subregions) *)
+Fixpoint add_areas (N : Z) (cands subs : list carea) (supply : list carea) : res (list carea * list carea) :=
+  match supply with
+  | [] => Ok (cands, subs)
+  | a :: r =>
+    if ckind a =? 1 then do c <- add_area N cands a; add_areas N c subs r
+    else do s <- add_area N subs a; add_areas N cands s r
+  end.
+
+Definition record_regions (N : Z) (circular : bool) (supply : list carea) : res (list cregion) :=
+  do cs <- add_areas N [] [] supply;
+  create_regions N circular [] (fst cs) (snd cs).
+
+(* a history of add_region(Region(subregions=[x])) calls, each accepted or refused; the record keeps
+   the accepted ones *)
+Fixpoint add_history (N : Z) (regs : list cregion) (news : list carea) (flags_rev : list Z) : list Z * list cregion :=
+  match news with
+  | [] => (rev flags_rev, regs)
+  | x :: r =>
+    match (do reg <- region_init [] [x]; add_region N regs reg) with
+    | Ok regs' => add_history N regs' r (0 :: flags_rev)
+    | Err k => add_history N regs r (k :: flags_rev)
+    end
+  end.
+
+Fixpoint number_from (i : Z) (l : list (Z * loc)) : list carea :=
+  match l with [] => [] | (k, lc) :: r => mkCA i k lc :: number_from (i + 1) r end.
+Definition eIds (l : list carea) : list Z := eList (fun a => [cid a]) l.
+Definition eRegion (r : cregion) : list Z := eLoc (rloc r) ++ eIds (rcands r) ++ eIds (rsubs r).
+
+
+(* ====================================================================================
+   Parent and region links (function id 5): CDSCollection._parent of protoclusters (set by the
+   CandidateCluster constructor) and of candidate clusters / sub-regions (set by the Region
+   constructor), CDSFeature.region (set by add_region), and how clear_regions /
+   clear_candidate_clusters / clear_subregions / clear_protoclusters reset them, incl. the conditional
+   re-creation of the regions.  Features are abstract ids; which areas form a section and which genes
+   lie within a region is decided by create_regions / get_cds_features_within_location and is an
+   argument of the operation here (the correspondence run passes what the implementation did; the
+   grouping itself is the subject of function ids 1 and 3).
+   ==================================================================================== *)
+Definition lmap := list (Z * option Z).              (* the first binding wins *)
+Fixpoint lget (x : Z) (m : lmap) : option Z :=
+  match m with [] => None | (k, v) :: r => if x =? k then v else lget x r end.
+Definition lset_all (xs : list Z) (v : option Z) (m : lmap) : lmap := fold_left (fun m x => (x, v) :: m) xs m.
+
+Record lregion := mkLR { lr_id : Z; lr_members : list Z; lr_cds : list Z }.
+Record lstate := mkLS { l_protos : list Z; l_cands : list (Z * list Z); l_subs : list Z; l_regions : list lregion;
+                        l_pparent : lmap; l_aparent : lmap; l_cdsreg : lmap; l_next : Z }.
+Definition l_empty : lstate := mkLS [] [] [] [] [] [] [] 0.
+
+Definition grouping := list (list Z * list Z).       (* per section: member areas, genes within the region *)
+
+(* create_regions: Region(...) makes itself the parent of its areas, add_region links the genes *)
+Fixpoint l_create (gs : grouping) (st : lstate) : lstate :=
+  match gs with
+  | [] => st
+  | (ms, cds) :: r =>
+    l_create r (mkLS (l_protos st) (l_cands st) (l_subs st) (l_regions st ++ [mkLR (l_next st) ms cds])
+                     (l_pparent st) (lset_all ms (Some (l_next st)) (l_aparent st))
+                     (lset_all cds (Some (l_next st)) (l_cdsreg st)) (l_next st + 1))
+  end.
+
+Definition l_clear_regions (st : lstate) : lstate :=
+  mkLS (l_protos st) (l_cands st) (l_subs st) []
+       (l_pparent st)
+       (fold_left (fun m r => lset_all (lr_members r) None m) (l_regions st) (l_aparent st))
+       (fold_left (fun m r => lset_all (lr_cds r) None m) (l_regions st) (l_cdsreg st))
+       (l_next st).
+
+(* `if self._regions: self.clear_regions(); self.create_regions()` *)
+Definition l_recreate (gs : grouping) (st : lstate) : lstate :=
+  match l_regions st with [] => st | _ => l_create gs (l_clear_regions st) end.
+
+Definition l_clear_cands (gs : grouping) (st : lstate) : lstate :=
+  l_recreate gs (mkLS (l_protos st) [] (l_subs st) (l_regions st)
+                      (fold_left (fun m c => lset_all (snd c) None m) (l_cands st) (l_pparent st))
+                      (l_aparent st) (l_cdsreg st) (l_next st)).
+
+Definition l_clear_subs (gs : grouping) (st : lstate) : lstate :=
+  l_recreate gs (mkLS (l_protos st) (l_cands st) [] (l_regions st) (l_pparent st) (l_aparent st) (l_cdsreg st) (l_next st)).
+
+Inductive lop :=
+| LAddProto (p : Z)
+| LAddCand (c : Z) (children : list Z)       (* CandidateCluster(..., children) followed by add_candidate_cluster *)
+| LAddSub (s : Z)
+| LCreate (gs : grouping)
+| LClearRegions
+| LClearCands (gs : grouping)
+| LClearSubs (gs : grouping)
+| LClearProtos (gs : grouping).
+
+Definition l_apply (st : lstate) (o : lop) : lstate :=
+  match o with
+  | LAddProto p => mkLS (p :: l_protos st) (l_cands st) (l_subs st) (l_regions st) (l_pparent st) (l_aparent st) (l_cdsreg st) (l_next st)
+  | LAddCand c ch => mkLS (l_protos st) ((c, ch) :: l_cands st) (l_subs st) (l_regions st)
+                          (lset_all ch (Some c) (l_pparent st)) (l_aparent st) (l_cdsreg st) (l_next st)
+  | LAddSub s => mkLS (l_protos st) (l_cands st) (s :: l_subs st) (l_regions st) (l_pparent st) (l_aparent st) (l_cdsreg st) (l_next st)
+  | LCreate gs => l_create gs st
+  | LClearRegions => l_clear_regions st
+  | LClearCands gs => l_clear_cands gs st
+  | LClearSubs gs => l_clear_subs gs st
+  | LClearProtos gs =>
+    l_clear_cands gs (mkLS [] (l_cands st) (l_subs st) (l_regions st) (l_pparent st) (l_aparent st) (l_cdsreg st) (l_next st))
+  end.
+
+Definition dGrouping : dec grouping := dList (dPair (dList dZ) (dList dZ)).
+Definition dLop : dec lop := fun l =>
+  match l with
+  | 0 :: p :: r => Some (LAddProto p, r)
+  | 1 :: c :: r => match dList dZ r with Some (ch, r') => Some (LAddCand c ch, r') | None => None end
+  | 2 :: s :: r => Some (LAddSub s, r)
+  | 3 :: r => match dGrouping r with Some (g, r') => Some (LCreate g, r') | None => None end
+  | 4 :: r => Some (LClearRegions, r)
+  | 5 :: r => match dGrouping r with Some (g, r') => Some (LClearCands g, r') | None => None end
+  | 6 :: r => match dGrouping r with Some (g, r') => Some (LClearSubs g, r') | None => None end
+  | 7 :: r => match dGrouping r with Some (g, r') => Some (LClearProtos g, r') | None => None end
+  | _ => None
+  end.
+
+(* observation: a protocluster's parent by candidate id; an area's / a gene's region by the smallest
+   member of that region (-1: no link, -2: a link to a region that is not in the record) *)
+Definition region_name (st : lstate) (link : option Z) : Z :=
+  match link with
+  | None => -1
+  | Some r => match find (fun reg => lr_id reg =? r) (l_regions st) with
+              | Some reg => lmin (lr_members reg)
+              | None => -2
+              end
+  end.
+Definition cand_name (st : lstate) (link : option Z) : Z :=
+  match link with
+  | None => -1
+  | Some c => if existsb (fun x => fst x =? c) (l_cands st) then c else -2
+  end.
+
 Definition run_C06 (fn : Z) (l : list Z) : list Z :=
   match fn with
   | 1 => match dPair dZ (dList dItv) l with
@@ -68,6 +345,22 @@ Definition run_C06 (fn : Z) (l : list Z) : list Z :=
          | Some (ops, []) =>
            let st := fold_left apply_nop ops ([], []) in
            eList (fun x => [x; match number_of x (snd st) with Some n => n | None => -1 end]) (fst st)
+         | _ => bad_input end
+  | 3 => match dPair (dPair dZ dBool) (dList (dPair dZ dLoc)) l with
+         | Some ((N, circular, areas), []) =>
+           eRes (eList eRegion) (record_regions N circular (number_from 0 areas))
+         | _ => bad_input end
+  | 4 => match dPair dZ (dList (dPair dZ dLoc)) l with
+         | Some ((N, areas), []) =>
+           let '(flags, regs) := add_history N [] (number_from 0 areas) [] in
+           eList (fun k => [k]) flags ++ eList eRegion regs
+         | _ => bad_input end
+  | 5 => match dPair (dList dLop) (dPair (dList dZ) (dPair (dList dZ) (dList dZ))) l with
+         | Some ((ops, (protos, (areas, genes))), []) =>
+           let st := fold_left l_apply ops l_empty in
+           map (fun p => cand_name st (lget p (l_pparent st))) protos
+           ++ map (fun a => region_name st (lget a (l_aparent st))) areas
+           ++ map (fun g => region_name st (lget g (l_cdsreg st))) genes
          | _ => bad_input end
   | _ => bad_input
   end.
